@@ -223,12 +223,15 @@ def run(ctx, consts, jobs):
         j = c["j"]
         f = j["f"]
         scripts.append(("b|%d" % n, C.read_script(f, j["ch"], j["frames"], j["filehex"], "vio")))
-        routes = ["vio", "path", "fd0", "fd1"] + (["fdemb:37:9"] if f.major in C.WHITELIST else [])
+        # a stream that does not say how long it is ("unknown-size": AU data size 0xffffffff) has no defined end inside a larger file and no
+        # defined frame count on a pipe (the library refuses the first and reports SF_COUNT_MAX-derived frames for the second, by design)
+        open_ended = "unknown-size" in c["tag"]
+        routes = ["vio", "path", "fd0", "fd1"] + (["fdemb:37:9"] if f.major in C.WHITELIST and not open_ended else [])
         c["routes"] = routes
         for r in routes:
             scripts.append(("f|%d|%s" % (n, r), C.read_script(f, j["ch"], j["frames"], c["hex"], r)))
         c["pipes"] = []
-        if f.major in C.PIPE_MAJORS and f.granular:
+        if f.major in C.PIPE_MAJORS and f.granular and not open_ended:
             c["pipes"] = ["pipe", "pipe:4096"]
             scripts.append(("f|%d|vioseq" % n, C.read_script(f, j["ch"], j["frames"], c["hex"], "vio", seekable=False)))
             for r in c["pipes"]:
